@@ -27,36 +27,42 @@ CLAIMED = {
         technique='Lean 4 theorems over the translated source + exhaustive threshold-cell correspondence',
         design_ref='DESIGN.md 5/C12'),
     'C01': dict(
-        category='translation_validation',
+        category='proof',
         text=("The record loop's tables and fallbacks (col, delimiter, blank-field defaults, ATOM/ENDMDL prefixes, _format_pdb_linelength, _get_chainID, "
               "_get_element) are translated from the current source on every run; Model/Parse.lean follows the loop and read_pdb's seven input forms; "
-              "Spec/C01.lean is the property's own column table and rules. Proved so far (Props/C01.lean): the source's column table IS the wwPDB table of the "
-              "statement (delimiter_is_wwpdb), column order/types, the documented defaults, the record prefixes. Correspondence: implementation vs Model vs Spec on "
-              "generated records (every field widest/narrowest/blank, every name alignment, non-blank altLoc/iCode, truncated lines, interleaved other records, "
-              "malformed stream, per-column probes) x the 7 container forms. The per-record equality Model = Spec for all strings is being proved; until it is "
-              "in Props/C01.lean the claim is translation validation, not proof."),
-        note=BASE_NOTE + "Assumed: int()/float() on the modelled decimal grammar; SQLite stores what it is given.",
-        technique='translated tables + hand model validated differentially against the code and the Lean spec; Lean theorems on the tables',
-        design_ref='DESIGN.md 5/C01'),
+              "Spec/C01.lean is the property's own column table and rules. Theorems (Props/C01.lean, 25): the source's column table IS the wwPDB table of the statement "
+              "(delimiter_is_wwpdb), every slice is the stated columns (slice_is_columns), the chain/element fallbacks are the documented rules (get_chainID_spec, "
+              "get_element_spec, element_unpadded), for EVERY string the modelled record parser equals the property's parseRecord (parse_fields) and for every list of lines "
+              "the table equals one row per ATOM record in input order with the model counter (parse_rows, atom_records_in_order, rows_count, other_records_ignored), "
+              "unrepresentable text makes the whole parse an error (too_long_raises, nonnumeric_raises, blank_chain_blank_seg_raises, no_silent_alteration), and every accepted "
+              "container of the same text gives the same table (readlines_eq_split, container_independent). Correspondence: implementation vs Model vs Spec on generated records "
+              "(every field widest/narrowest/blank, every name alignment, truncated lines, interleaved records, malformed stream, per-column probes) x the container forms."),
+        note=BASE_NOTE + "Assumed: int()/float() on the modelled decimal grammar; SQLite stores what it is given; the hand model of the record loop is tied by the translator's shape check of the loop and by the correspondence run.",
+        technique='Lean 4 theorems (model = spec for all strings) over translated tables/fallbacks + differential correspondence of the hand-modelled loop',
+        design_ref='DESIGN.md 5/C01, 12'),
     'C02': dict(
-        category='translation_validation',
+        category='proof',
         text=("data2pdb's line assembly, _format_atomname and _format_xyz are translated from the current source on every run. Spec/C02.lean is a checker of the "
-              "property's clauses (80 columns, every attribute in its columns, 8-column coordinates with the demanded number of decimals, read-back within half a unit "
-              "of the printed precision, re-export). Proved so far: xyz_out_of_range_raises. Correspondence: every row is written into a real database, exported, re-parsed "
-              "and re-exported; implementation = translated model text-for-text, and the Lean checker accepts every line; every multiple of 0.0005 in windows around all "
-              "format-switch thresholds, range ends and powers of ten; every bundled PDB file's canonical records reproduced."),
-        note=BASE_NOTE + "Assumed: CPython's '{:.kf}' is correctly rounded (= Py.fmtFixed); -0.0 not modelled.",
-        technique='translated formatter validated differentially + Lean spec checker; width/round-trip theorems in progress',
-        design_ref='DESIGN.md 5/C02'),
+              "property's clauses. Theorems (Props/C02.lean, 17): every coordinate in range is written in exactly 8 columns (xyz_width) with three decimals in (-999.5, 9999.5) and "
+              "never fewer than the property demands elsewhere (xyz_precision, xyz_precision_general), out-of-range raises (xyz_out_of_range_raises, line_out_of_range_raises); for every "
+              "row that fits its fields the line is 80 columns with every attribute in its wwPDB columns incl. the name alignment (line_width, line_columns); parsing the exported line gives "
+              "the row back within half a unit of the printed precision / 0.005 and identical text attributes (roundtrip, roundtrip_row_fits, int_roundtrip, float_roundtrip); re-export "
+              "(reexport_ok, reexport_same_value_partial: exact same values except at the thresholds 999999.5 / -99999.5 where the second export has fewer decimals). "
+              "Correspondence: every row is written into a real database, exported, re-parsed and re-exported; implementation = translated model text for text and the Lean checker accepts "
+              "every line; every multiple of 0.0005 around all switch thresholds, range ends and powers of ten; bundled and synthetic canonical records reproduced."),
+        note=BASE_NOTE + "Assumed: CPython's '{:.kf}' is correctly rounded (= Py.fmtFixed, compared on every sample); -0.0 not modelled; canonical_reproduced is checked on files, not proved.",
+        technique='Lean 4 theorems over the translated formatter (width, columns, round trip for all rows that fit) + differential correspondence',
+        design_ref='DESIGN.md 5/C02, 12'),
     'C09': dict(
-        category='translation_validation',
-        text=("The zone writer's line format and read_zone's line parser are translated from the current source on every run; zone lines for every printable chain "
-              "character x residue numbers (negative, zero, 1-4 digits) go through the library's writer and reader, the translated pair, and the Spec (identity). "
-              "Route agreement {fast,SQL} x {svd,quaternion} x {no zone, zone written, zone read} is compared on generated complexes (equal chains, rank-flipping side chains, "
-              "incomplete decoys, negative numbering). Proved so far: zone_line_format. Known finding C09-F4 (chain '-') is reported as KNOWN-FINDING."),
-        note=BASE_NOTE,
-        technique='translated zone reader/writer validated differentially; route agreement by metamorphic comparison; round-trip theorem in progress',
-        design_ref='DESIGN.md 5/C09'),
+        category='proof',
+        text=("The zone writer's line format and read_zone's line parser are translated from the current source on every run. Theorems (Props/C09.lean): for every chain character other "
+              "than '-'/blank and EVERY integer residue number the written line is read back as exactly that residue (read_write_zone, read_write_zone_file), the format itself "
+              "(zone_line_format), and the recorded counterexample for chain '-' (known finding C09-F4, reported as KNOWN-FINDING). get_izone_rowID now calls read_zone (fix commit), so one "
+              "reader serves every routine. Route agreement {fast,SQL} x {svd,quaternion} x {no zone, zone written, zone read} is a metamorphic comparison on generated complexes (equal chains, "
+              "rank-flipping side chains, incomplete decoys, negative numbering, mirror-image decoys) - sampled, not proved here (the pairing theorems of C07/C08 state it per route)."),
+        note=BASE_NOTE + "Route agreement is sampled; values compared after the library's own rounding.",
+        technique='Lean 4 theorem (zone round trip for all chains/numbers) over the translated reader/writer + metamorphic route comparison',
+        design_ref='DESIGN.md 5/C09, 12'),
 }
 
 checks = []
